@@ -67,7 +67,13 @@ World ==
                               Define("read-show", Thunk(<<Call("show", <<>>)>>)),
                               Define("read-next", Thunk(<<Call("next!", <<>>)>>))>>,
                    exports |-> << <<"read-peek", "read-peek">>, <<"read-show", "read-show">>, <<"read-next", "read-next">> >>])
-LibNames == {"counter", "user", "top", "bare", "patcher", "reader"}
+  \* a diamond under ONE import: (dia) imports (reader), which imports (counter), and (counter) itself - still one instance
+  @@ ("dia" :> [imports |-> <<"reader", "counter">>,
+                body |-> <<Define("dia-next", Thunk(<<Call("next!", <<>>)>>)),
+                           Define("dia-read", Thunk(<<Call("read-next", <<>>)>>)),
+                           Define("dia-peek", Thunk(<<Call("peek", <<>>)>>))>>,
+                exports |-> << <<"dia-next", "dia-next">>, <<"dia-read", "dia-read">>, <<"dia-peek", "dia-peek">> >>])
+LibNames == {"counter", "user", "top", "bare", "patcher", "reader", "dia"}
 
 RECURSIVE RunSteps(_, _)
 RunSteps(s, fuel) == IF s.status = "done" \/ fuel = 0 THEN s ELSE RunSteps(Step(s), fuel - 1)
@@ -112,9 +118,9 @@ MainOps == {Call("next!", <<>>), Call("use-counter", <<>>), Call("peek", <<>>), 
         Define("next!", Thunk(<<Quote(MkSym("fake"))>>)), Define("importer-var", Num(5)),
         Call("bump", <<>>), Var("n"), Call("renamed-bump", <<>>), Var("a-val"), Var("b-val"), Call("get-ab", <<>>), Var("start"), Call("u-peek", <<>>), Call("u-next!", <<>>), Call("top-use", <<>>), Call("bare-leak", <<>>), Call("bare-set", <<>>), Var("importer-var")}
 
-PatchImportChoices == { <<<<"patcher", "reader">>, <<"", "">>>>, <<<<"reader", "patcher", "counter">>, <<"", "", "">>>>, <<<<"counter", "patcher", "reader">>, <<"", "", "">>>> }
+PatchImportChoices == { <<<<"patcher", "reader">>, <<"", "">>>>, <<<<"reader", "patcher", "counter">>, <<"", "", "">>>>, <<<<"counter", "patcher", "reader">>, <<"", "", "">>>>, <<<<"dia">>, <<"">>>>, <<<<"dia", "counter">>, <<"", "">>>> }
 PatchOps == {Call("patch!", <<>>), Call("patched-peek", <<>>), Call("patched-show", <<>>), Call("read-peek", <<>>), Call("read-show", <<>>), Call("read-next", <<>>),
-             Call("peek", <<>>), Call("show", <<>>), Call("next!", <<>>)}
+             Call("peek", <<>>), Call("show", <<>>), Call("next!", <<>>), Call("dia-next", <<>>), Call("dia-read", <<>>), Call("dia-peek", <<>>)}
 ImportChoices == IF Family = "patch" THEN PatchImportChoices ELSE MainImportChoices
 Ops == IF Family = "patch" THEN PatchOps ELSE MainOps
 
@@ -144,8 +150,8 @@ LibraryFramesAreRoots == \A n \in DOMAIN st.insts : st.m.frames[st.insts[n]].par
 \* the state kept inside (counter) is what all importers see: peek equals the number of next!/use-counter/c:next!/renamed-bump calls
 CounterCalls == Len(SelectSeq(hist, LAMBDA h : h.r.k = "value" /\ h.form.t = "app" /\ h.form.f.t = "var"
                                                  /\ h.form.f.x \in {"next!", "use-counter", "c:next!", "renamed-bump"} /\ h.r.v.t = "int"))
-Bumps == {Call(x, <<>>) : x \in {"next!", "use-counter", "c:next!", "renamed-bump", "u-next!", "top-use", "read-next"}}      \* (when they still denote the library's procedures)
-Peeks == {Call("peek", <<>>), Call("bump", <<>>), Call("read-peek", <<>>)}       \* (the importer's bump is the library's peek)
+Bumps == {Call(x, <<>>) : x \in {"next!", "use-counter", "c:next!", "renamed-bump", "u-next!", "top-use", "read-next", "dia-next", "dia-read"}}      \* (when they still denote the library's procedures)
+Peeks == {Call("peek", <<>>), Call("bump", <<>>), Call("read-peek", <<>>), Call("dia-peek", <<>>)}       \* (the importer's bump is the library's peek)
 SharedState == \A i \in DOMAIN hist :
    (hist[i].form \in Peeks /\ hist[i].r.k = "value") =>
       hist[i].r.v = MkInt(Len(SelectSeq(SubSeq(hist, 1, i), LAMBDA h : h.r.k = "value" /\ h.r.v.t = "int" /\ h.form \in Bumps)))
